@@ -646,8 +646,19 @@ func errnoFor(name string) error {
 		return syscall.EMSGSIZE
 	case "ErrPermission":
 		return os.ErrPermission
+	case "ETIMEDOUT":
+		return syscall.ETIMEDOUT
+	case "EAGAIN":
+		return syscall.EAGAIN
 	}
 	return nil
+}
+
+// Timeout reports what the wrapped cause reports: an errno such as ETIMEDOUT or EAGAIN is a
+// "timeout" to net.Error-style tests, and still not the read deadline's os.ErrDeadlineExceeded.
+func (e *SentinelError) Timeout() bool {
+	t, ok := e.Cause.(interface{ Timeout() bool })
+	return ok && t.Timeout()
 }
 
 // symPort renders kernel-chosen ports symbolically, in order of first appearance.
